@@ -1030,4 +1030,179 @@ theorem book_spin {sc : Scen} {k : Nat} (n : Nat) (w : W) (h : Book sc k w) : Bo
   spin_inv exec fuelD (Book sc k) (fun w c rest h hc _ => book_pop h c rest hc)
     (fun _ _ _ h _ _ => book_of_eq h rfl rfl rfl rfl) n w h
 
+/-! ### the timeout call: pending in the queue, or called (an event), or cancelled (a result was recorded) -/
+
+def qT (w : W) : Nat := (qlbls w).count .timeout
+def eT (w : W) : Nat := (elbls w).count .timeout
+
+def TJ (w : W) : Prop :=
+  (w.sp.tcall = .pending ∧ w.sp.success = none ∧ w.sp.failure = none ∧ qT w = 1 ∧ eT w = 0) ∨
+  (w.sp.tcall = .called ∧ w.sp.success = none ∧ w.sp.failure = some .timeout ∧ qT w = 0 ∧ eT w = 1) ∨
+  (w.sp.tcall = .cancelled ∧ isOwnResult (getResult w.sp) = true ∧ qT w = 0 ∧ eT w = 0)
+
+theorem tj_frame {w w' : W} (h : TJ w) (h1 : w'.sp.tcall = w.sp.tcall) (h2 : w'.sp.success = w.sp.success)
+    (h3 : w'.sp.failure = w.sp.failure) (h4 : qT w' = qT w) (h5 : eT w' = eT w) : TJ w' := by
+  unfold TJ at h ⊢
+  have hg : getResult w'.sp = getResult w.sp := by simp [getResult, h2, h3]
+  rw [h1, h2, h3, h4, h5, hg]
+  exact h
+
+theorem tj_deliver {w : W} (r : Res) (hr : isOwnResult r = true) (h : TJ w) : TJ (deliver r w) := by
+  by_cases hp : w.sp.tcall = .pending
+  · rcases h with ⟨_, hs, hf, _, he⟩ | ⟨ht, _⟩ | ⟨ht, _⟩
+    · right; right
+      refine ⟨?_, ?_, ?_, ?_⟩
+      · unfold deliver; simp only [hp, stopReactor_tcall]; cases r <;> rfl
+      · unfold deliver; simp only [hp]
+        cases r <;> simp_all [getResult, isOwnResult]
+      · simp only [qT, qlbls, deliver_calls, hp, if_true]
+        exact count_timeout_filter _
+      · simpa [eT, elbls] using he
+    · rw [hp] at ht; cases ht
+    · rw [hp] at ht; cases ht
+  · rw [deliver_of_not_pending _ _ hp]
+    exact tj_frame h (by simp) (by simp) (by simp) (by simp [qT, qlbls]) (by simp [eT, elbls])
+
+theorem tj_exec {w : W} (l : Nat) (a : Act) (h : TJ w) : TJ (exec l a w) := by
+  rcases exec_cases l a w with ⟨h1, h2, _, _, h5, _⟩ | ⟨r, w1, hr, he, h1, h2, _, _, h5⟩
+  · exact tj_frame h (by rw [h2]) (by rw [h2]) (by rw [h2]) (by simp [qT, qlbls, h1]) (by simp [eT, elbls, h5])
+  · rw [he]
+    exact tj_deliver r hr (tj_frame h (by rw [h2]) (by rw [h2]) (by rw [h2]) (by simp [qT, qlbls, h1]) (by simp [eT, elbls, h5]))
+
+theorem tj_log_user {w : W} (l : Nat) (h : TJ w) : TJ (logEvent (.user l) w) :=
+  tj_frame h rfl rfl rfl rfl (by simp [eT, elbls, List.count_cons])
+
+theorem tj_pop {w : W} (h : TJ w) (c : DCall (QAct Act)) (rest : List (DCall (QAct Act)))
+    (hc : w.calls = c :: rest) : TJ (execCall exec c { w with calls := rest }) := by
+  rcases c with ⟨t, q⟩
+  have hq : qT w = qT ({ w with calls := rest } : W) + (if (⟨t, q⟩ : DCall (QAct Act)).act.lbl = Lbl.timeout then 1 else 0) := by
+    simp only [qT, qlbls, hc]
+    rw [count_lbl_cons]
+  cases q with
+  | timeout =>
+    have hl : (⟨t, QAct.timeout⟩ : DCall (QAct Act)).act.lbl = Lbl.timeout := rfl
+    rw [hl] at hq
+    simp only [if_true] at hq
+    simp only [execCall]
+    rcases h with ⟨_, hs, _, hq1, he⟩ | ⟨_, _, _, hq0, _⟩ | ⟨_, _, hq0, _⟩
+    · right; left
+      refine ⟨by simp, by simpa using hs, by simp, ?_, ?_⟩
+      · have : qT ({ w with calls := rest } : W) = 0 := by omega
+        simpa [qT, qlbls] using this
+      · simp only [eT, elbls] at he
+        simp [eT, elbls, List.count_append, he]
+    · omega
+    · omega
+  | user l a =>
+    have hl : (⟨t, QAct.user l a⟩ : DCall (QAct Act)).act.lbl = Lbl.user l := rfl
+    rw [hl] at hq
+    simp only [execCall]
+    apply tj_exec
+    apply tj_log_user
+    exact tj_frame h rfl rfl rfl (by simp at hq; omega) rfl
+
+theorem tj_spin (n : Nat) (w : W) (h : TJ w) : TJ (spin exec fuelD n w) :=
+  spin_inv exec fuelD TJ (fun w c rest h hc _ => tj_pop h c rest hc)
+    (fun _ _ _ h _ _ => tj_frame h rfl rfl rfl rfl rfl) n w h
+
+/-! ### time: the loop never goes beyond the timeout instant and ends by a crash -/
+
+structure TInv (T0 : Nat) (w : W) : Prop where
+  sorted : Sorted w.calls
+  now_le : w.now ≤ T0
+  alive : w.crashed = false → w.sp.tcall = .pending ∧ w.sp.spinning = true
+  pend : w.sp.tcall = .pending → ∃ c ∈ w.calls, c.act.isTimeout = true ∧ c.time ≤ T0
+
+theorem tinv_deliver {T0 : Nat} {w : W} (r : Res) (h : TInv T0 w) : TInv T0 (deliver r w) := by
+  by_cases hp : w.sp.tcall = .pending
+  · refine ⟨?_, by simpa using h.now_le, ?_, ?_⟩
+    · rw [deliver_calls]; simp only [hp, if_true]; exact h.sorted.filter _
+    · intro hcr
+      exfalso
+      have : (deliver r w).crashed = (w.crashed || w.sp.spinning) := by
+        unfold deliver; simp only [hp, stopReactor_crashed]; cases r <;> rfl
+      rw [this] at hcr
+      cases hw : w.crashed with
+      | true => simp [hw] at hcr
+      | false => have := (h.alive hw).2; simp [hw, this] at hcr
+    · intro ht
+      exfalso
+      have : (deliver r w).sp.tcall = .cancelled := by
+        unfold deliver; simp only [hp, stopReactor_tcall]; cases r <;> rfl
+      rw [this] at ht; cases ht
+  · rw [deliver_of_not_pending _ _ hp]
+    have hcr : w.crashed = true := by
+      cases hw : w.crashed with
+      | true => rfl
+      | false => exact absurd (h.alive hw).1 hp
+    refine ⟨by simpa using h.sorted, by simpa using h.now_le, ?_, ?_⟩
+    · intro hc; rw [stopReactor_crashed, hcr] at hc; simp at hc
+    · intro ht; rw [stopReactor_tcall] at ht; exact absurd ht hp
+
+theorem tinv_pop {T0 : Nat} {w : W} (h : TInv T0 w) (c : DCall (QAct Act)) (rest : List (DCall (QAct Act)))
+    (hc : w.calls = c :: rest) : TInv T0 (execCall exec c { w with calls := rest }) := by
+  have hsr : Sorted rest := by have := h.sorted; rw [hc] at this; exact this.tail
+  rcases c with ⟨t, q⟩
+  cases q with
+  | timeout =>
+    simp only [execCall]
+    refine ⟨by simpa using hsr, by simpa using h.now_le, ?_, by simp⟩
+    intro hcr
+    exfalso
+    simp only [execTimeout, stopReactor_crashed, logEvent_crashed] at hcr
+    cases hw : w.crashed with
+    | true => simp [hw] at hcr
+    | false => have := (h.alive hw).2; simp [hw, logEvent, this] at hcr
+  | user l a =>
+    simp only [execCall]
+    have hbase : TInv T0 (logEvent (.user l) { w with calls := rest }) := by
+      refine ⟨hsr, h.now_le, h.alive, ?_⟩
+      intro ht
+      obtain ⟨c0, hc0, hto, hle⟩ := h.pend ht
+      rw [hc] at hc0
+      rcases List.mem_cons.mp hc0 with rfl | hc0
+      · simp [QAct.isTimeout] at hto
+      · exact ⟨c0, hc0, hto, hle⟩
+    rcases exec_cases l a (logEvent (.user l) { w with calls := rest }) with ⟨h1, h2, h3, h4, _, h6⟩ | ⟨r, w1, _, he, h1, h2, h3, h4, _⟩
+    · refine ⟨by rw [h1]; exact hbase.sorted, by rw [h4]; exact hbase.now_le, ?_, by rw [h2, h1]; exact hbase.pend⟩
+      intro hcr
+      rw [h2]
+      apply hbase.alive
+      rcases h6 with h6 | h6
+      · rw [← h6]; exact hcr
+      · subst h6; simp [exec] at hcr
+    · rw [he]
+      exact tinv_deliver r ⟨by rw [h1]; exact hbase.sorted, by rw [h4]; exact hbase.now_le,
+        by rw [h3, h2]; exact hbase.alive, by rw [h2, h1]; exact hbase.pend⟩
+
+theorem tinv_adv {T0 : Nat} {w : W} (h : TInv T0 w) (c : DCall (QAct Act)) (rest : List (DCall (QAct Act)))
+    (hc : w.calls = c :: rest) (hcr : w.crashed = false) : TInv T0 { w with now := max w.now c.time } := by
+  refine ⟨h.sorted, ?_, h.alive, h.pend⟩
+  obtain ⟨c0, hc0, _, hle⟩ := h.pend (h.alive hcr).1
+  have hs := h.sorted
+  rw [hc] at hc0 hs
+  have : c.time ≤ T0 := by
+    rcases List.mem_cons.mp hc0 with rfl | hc0
+    · exact hle
+    · exact Nat.le_trans (hs.head_le c0 hc0) hle
+  have := h.now_le
+  show max w.now c.time ≤ T0
+  omega
+
+theorem tinv_spin {T0 : Nat} (n : Nat) (w : W) (h : TInv T0 w) : TInv T0 (spin exec fuelD n w) :=
+  spin_inv exec fuelD (TInv T0) (fun w c rest h hc _ => tinv_pop h c rest hc)
+    (fun w c rest h hc hcr => tinv_adv h c rest hc hcr) n w h
+
+/-- `now` never decreases -/
+theorem now_mono_spin (n : Nat) (w : W) (b : Nat) (h : b ≤ w.now) : b ≤ (spin exec fuelD n w).now := by
+  apply spin_inv exec fuelD (fun w => b ≤ w.now) _ _ n w h
+  · intro w c rest h hc _
+    rcases c with ⟨t, q⟩
+    cases q with
+    | timeout => simpa [execCall] using h
+    | user l a => simpa [execCall, (exec_frame l a _).now] using h
+  · intro w c rest h _ _
+    show b ≤ max w.now c.time
+    omega
+
 end TTV.Props.C15
